@@ -47,6 +47,7 @@ import base64
 import binascii
 import re
 from datetime import date, datetime, time, timedelta
+from decimal import Decimal
 from enum import Enum
 from typing import Union
 
@@ -308,7 +309,11 @@ class vFloat(float):
         return self
 
     def to_ical(self):
-        return str(self).encode('utf-8')
+        text = str(self)
+        if 'e' in text:
+            # RFC 5545 FLOAT has no exponent notation
+            text = format(Decimal(text), 'f')
+        return text.encode('utf-8')
 
     @classmethod
     def from_ical(cls, ical):
@@ -1578,7 +1583,9 @@ class vGeo:
         self.params = Parameters(params)
 
     def to_ical(self):
-        return f"{self.latitude};{self.longitude}"
+        latitude = vFloat(self.latitude).to_ical().decode('utf-8')
+        longitude = vFloat(self.longitude).to_ical().decode('utf-8')
+        return f"{latitude};{longitude}"
 
     @staticmethod
     def from_ical(ical):
